@@ -461,6 +461,46 @@ def r24_11(ctx, rep):
     module_state_free(ctx, rep, "R24.11", SYM, "the SymPy generator module")
 
 
+@SPEC.rule(
+    "R24.12",
+    "every list entry and equation is rendered from the node it belongs to: no function of the SymPy generator reads a for-loop's variable after that loop has ended (the value the last iteration left behind)",
+)
+def r24_12(ctx, rep):
+    from ._literal import no_stale_loop_variables
+    no_stale_loop_variables(ctx, rep, "R24.12", SYM, "the SymPy generator")
+
+
+@SPEC.rule(
+    "R24.13",
+    "a unary sign is rendered, every time: in the unary +/- branch of SympyGenerator.exitExpression every text stored for the node contains the "
+    "node's own operator in front of the rendered operand — no cancelling of `two signs in a row` on the text level (- (+x) is not x)",
+)
+def r24_13(ctx, rep):
+    R = "R24.13"
+    fn = ctx.methods(SYM, "SympyGenerator", R).get("exitExpression")
+    if fn is None:
+        raise MechanismMissing(R, "SympyGenerator.exitExpression not found")
+    site = SYM + ":SympyGenerator.exitExpression"
+    ops = {st.targets[0].id for st in walk_local(fn) if isinstance(st, ast.Assign) and isinstance(st.targets[0], ast.Name)
+           and any(isinstance(y, ast.Attribute) and y.attr == "operator" for y in ast.walk(st.value))}
+    branches = [b for b in ast.walk(fn) if isinstance(b, ast.If) and "== 1" in norm(b.test) and "'-'" in norm(b.test)]
+    if not branches or not ops:
+        raise MechanismMissing(R, "unary +/- branch (or the local holding the operator) not found")
+    n = 0
+    for b in branches:
+        for st in [x for s_ in b.body for x in ast.walk(s_)]:
+            if isinstance(st, ast.Assign) and isinstance(st.targets[0], ast.Name) and st.targets[0].id not in ops and any(
+                    isinstance(y, ast.Subscript) and norm(y.value) == "self.src" for y in ast.walk(st.value)):
+                n += 1
+                pieces = _template_pieces(st.value) or []
+                exprs = [norm(p_) for p_ in pieces if not isinstance(p_, str)]
+                has_op = any(e in ops or any(e.startswith(o + " ") or e == o for o in ops) for e in exprs)
+                rep.ob(R, site, "`%s` carries the node's sign" % norm(st)[:60], has_op and len(exprs) >= 2,
+                       "the text stored for a unary +/- node is `%s`: the sign of this node is not in it" % norm(st.value)[:60])
+    if n < 1:
+        raise MechanismMissing(R, "no rendering of the unary operand found in the unary branch")
+
+
 # -- seeded variants ---------------------------------------------------------
 from ._mut import replace_in_func  # noqa: E402
 
@@ -552,3 +592,17 @@ def _m_comment(mod):
             c.value = c.value.replace("{{ render.src[eq] }},", "{{ render.src[eq] }},  # {{ eq.comment }}")
             return mod
     return None
+
+
+@SPEC.mutant("two unary signs in a row cancelled", SYM, "R24.13", "carries the node's sign")
+def _m_cancel_signs(mod):
+    def edit(fn):
+        for b in ast.walk(fn):
+            if isinstance(b, ast.If) and "== 1" in norm(b.test) and "'-'" in norm(b.test):
+                old = b.body
+                b.body = ast.parse("if isinstance(tree.operands[0], ast.Expression) and len(tree.operands[0].operands) == 1:\n    src = self.src[tree.operands[0].operands[0]]\nelse:\n    pass").body
+                b.body[0].orelse = old
+                return True
+        return False
+
+    return mod if replace_in_func(mod, "SympyGenerator.exitExpression", edit) else None
